@@ -58,7 +58,10 @@ def dqt(n):
 
 
 def short_file(f):
-    return os.path.relpath(f, "/repo") if f and f.startswith("/repo/") else (f or "?")
+    from .extract import REPO
+    if f and f.startswith(REPO + "/"):
+        return os.path.relpath(f, REPO)
+    return f or "?"
 
 
 def where(n):
